@@ -106,6 +106,9 @@ func linNonZeroEdge(p *Program, v ssa.Value) Lin {
 			return p.linearize(nz[0], 0)
 		}
 	}
+	if l, _, ok := p.piecewiseCall(v); ok {
+		return l
+	}
 	return p.linearize(v, 0)
 }
 
@@ -214,6 +217,26 @@ func checkVirtualSize(c *Ctx, fn *ssa.Function) {
 			outVar = true
 		}
 	}
+	// a term of the estimate extracted into a same-package helper: its varint calls, in the estimator's terms
+	for _, ci := range callsOf(fn) {
+		cs, ok := ci.(*ssa.Call)
+		if !ok {
+			continue
+		}
+		h := cs.Call.StaticCallee()
+		if h == nil || h == fn || len(h.Blocks) == 0 || fnPkgPath(h) != fnPkgPath(fn) || h.Object() == nil || h.Object().Exported() {
+			continue
+		}
+		for _, call := range callsNamed(h, "VarIntSerializeSize") {
+			l := p.substParams(p.linearize(call.Call.Args[0], 0), cs).String()
+			switch {
+			case l == allKinds.String():
+				inputVar = true
+			case l == witKinds.String():
+				witVar = true
+			}
+		}
+	}
 	c.Check("C07-R2", "input-count-varint-sums-all-kinds", fn.Pos(), inputVar, "no VarIntSerializeSize call is fed the sum of all input-kind parameters")
 	c.Check("C07-R2", "witness-count-varint-sums-witness-kinds", fn.Pos(), witVar, "no VarIntSerializeSize call is fed the sum of the witness-bearing input kinds")
 	c.Check("C07-R2", "output-count-varint-includes-change:EstimateVirtualSize", fn.Pos(), outVar,
@@ -247,6 +270,10 @@ func checkVirtualSize(c *Ctx, fn *ssa.Function) {
 			hasChange := false
 			for k := range bl.Coef {
 				if strings.HasPrefix(k, "phi:changeOutputSize") || strings.Contains(k, "phi:") {
+					hasChange = true
+				}
+				// ... or computed by an extracted helper from the change script size parameter
+				if strings.HasPrefix(k, "call:") && !strings.HasPrefix(k, "call:SumOutputSerializeSizes") && !strings.HasPrefix(k, "call:VarIntSerializeSize") && strings.Contains(k, "param#5") {
 					hasChange = true
 				}
 			}
@@ -288,13 +315,20 @@ func checkVirtualSize(c *Ctx, fn *ssa.Function) {
 				c.Check("C07-R2", "witness-marker-and-flag", r.Pos(), wl.Konst == 2, fmt.Sprintf("witness weight lacks the 2 marker/flag bytes (constant %d)", wl.Konst))
 				// the witness term is counted whenever ANY witness-bearing kind is present: each integer guard of the
 				// block that computes it must mention all witness kinds (with one sign) or none of them
+				var guardSets [][]CmpForm
 				if ph, ok := stripConv(wphi).(*ssa.Phi); ok {
 					for ei, e := range ph.Edges {
 						if k, isC := constInt(e); isC && k == 0 {
 							continue
 						}
-						pred := ph.Block().Preds[ei]
-						for _, form := range p.guardFormsLin(pred) {
+						guardSets = append(guardSets, p.guardFormsLin(ph.Block().Preds[ei]))
+					}
+				} else if _, gs, ok := p.piecewiseCall(wphi); ok {
+					guardSets = append(guardSets, gs)
+				}
+				{
+					for _, forms := range guardSets {
+						for _, form := range forms {
 							mentioned, sign, consistent := 0, int64(0), true
 							for k, i := range kinds {
 								if k == "P2PKH" {
@@ -526,6 +560,7 @@ func checkAuthor(c *Ctx, fn *ssa.Function) {
 			}
 			loops := loopsOf(fn)
 			counted := 0
+			fieldsSeen := map[[2]interface{}]bool{}
 			for i := 0; i < 4; i++ {
 				switch a := sz.Call.Args[i].(type) {
 				case *ssa.Phi:
@@ -541,6 +576,38 @@ func checkAuthor(c *Ctx, fn *ssa.Function) {
 							if isScripts(ha) {
 								counted++
 								break
+							}
+						}
+					}
+				default:
+					// a field of the struct a counting helper returned (counts := countInputTypes(scripts); counts.p2pkh):
+					// four different fields of one result
+					if _, _, base, okf := fieldOf(sz.Call.Args[i]); okf {
+						fidx := -1
+						switch y := sz.Call.Args[i].(type) {
+						case *ssa.Field:
+							fidx = y.Field
+						case *ssa.UnOp:
+							if fa, ok := y.X.(*ssa.FieldAddr); ok {
+								fidx = fa.Field
+							}
+						}
+						var hc *ssa.Call
+						switch y := base.(type) {
+						case *ssa.Call:
+							hc = y
+						case *ssa.Alloc:
+							if sts := storesTo(y); len(sts) == 1 {
+								hc, _ = sts[0].Val.(*ssa.Call)
+							}
+						}
+						if hc != nil && fidx >= 0 && !fieldsSeen[[2]interface{}{hc, fidx}] {
+							for _, ha := range hc.Call.Args {
+								if isScripts(ha) {
+									fieldsSeen[[2]interface{}{hc, fidx}] = true
+									counted++
+									break
+								}
 							}
 						}
 					}
@@ -695,6 +762,40 @@ func predicateSequence(fn *ssa.Function) []string {
 					seen[n] = true
 					seq = append(seq, n)
 				}
+				// the classifier spelled as data: an ordered literal table of {predicate, ...} rows scanned for the first
+				// match — the rows' predicates in order (first match wins only if a match leaves the scan)
+				if call.Call.StaticCallee() == nil && !call.Call.IsInvoke() && theProg != nil {
+					if preds := theProg.rangeFieldValues(call.Call.Value); len(preds) > 0 {
+						firstMatch := false
+						if l := innermostLoopOf(loopsOf(f), call); l != nil {
+							firstMatch = true
+							for _, bb := range f.Blocks {
+								for si := range bb.Succs {
+									if ef := edgeFactOf(bb, si); ef != nil && ef.Kind == "true" && ef.V == ssa.Value(call) {
+										q := &PathQuery{Fn: f}
+										q.LoopExit = func(from, to *ssa.BasicBlock) bool { return to == l.Header }
+										if len(exploreFromBlock(q, bb.Succs[si], bb)) > 0 {
+											firstMatch = false
+										}
+									}
+								}
+							}
+						}
+						for _, pv := range preds {
+							name := "?"
+							if g := fnValueOf(pv); g != nil {
+								name = g.Name()
+							}
+							if !firstMatch {
+								name += "(no-first-match)"
+							}
+							if strings.HasPrefix(name, "IsPayTo") && !seen[name] {
+								seen[name] = true
+								seq = append(seq, name)
+							}
+						}
+					}
+				}
 				// helpers of the same package (e.g. an extracted classifier)
 				if callee := call.Call.StaticCallee(); callee != nil && depth < 2 && fnPkgPath(callee) == fnPkgPath(fn) && callee != fn {
 					walk(callee, depth+1)
@@ -755,6 +856,25 @@ func checkFeePlumbing(c *Ctx) {
 	// find the phi feeding ChangeSource.ScriptSize
 	n := 0
 	for _, st := range storesToField(cs, "ScriptSize") {
+		// the selection spelled as a literal table keyed by the address type
+		if lk := lookupOf(st.Val); lk != nil {
+			if es := p.mapLiteralOf(lk.X); len(es) > 0 {
+				for _, e := range es {
+					cst, isC := e.Key.(*ssa.Const)
+					k, isK := constInt(e.Val)
+					if !isC || !isK {
+						continue
+					}
+					atName := strings.TrimPrefix(valueDesc(cst), "waddrmgr.")
+					n++
+					wname := want[atName]
+					wv, okc := constInPkg(p, "wallet/txsizes", wname)
+					c.Check("C07-R4", "change-script-size:"+atName, st.Pos(), okc && wv == k,
+						fmt.Sprintf("change script size for address type %s is %d, expected %s=%d (fee estimate would use the wrong change output size)", atName, k, wname, wv))
+				}
+				continue
+			}
+		}
 		ph, ok := st.Val.(*ssa.Phi)
 		if !ok {
 			c.Check("C07-R4", "change-script-size-by-address-type", st.Pos(), false, "ChangeSource.ScriptSize is not selected per address type")
@@ -799,20 +919,32 @@ func checkFeePlumbing(c *Ctx) {
 		nCmp, okAll := 0, true
 		for _, b := range cs.Blocks {
 			for _, ins := range b.Instrs {
-				bo, ok := ins.(*ssa.BinOp)
-				if !ok || bo.Op != token.EQL {
-					continue
-				}
-				cst, ok := bo.Y.(*ssa.Const)
-				if !ok {
-					continue
-				}
-				if nm, ok := cst.Type().(*types.Named); !ok || nm.Obj().Name() != "AddressType" {
+				var selector ssa.Value
+				switch x := ins.(type) {
+				case *ssa.BinOp:
+					if x.Op != token.EQL {
+						continue
+					}
+					cst, ok := x.Y.(*ssa.Const)
+					if !ok {
+						continue
+					}
+					if nm, ok := cst.Type().(*types.Named); !ok || nm.Obj().Name() != "AddressType" {
+						continue
+					}
+					selector = x.X
+				case *ssa.Lookup:
+					// the size table keyed by the address type
+					if nm, ok := x.Index.Type().(*types.Named); !ok || nm.Obj().Name() != "AddressType" || len(p.mapLiteralOf(x.X)) == 0 {
+						continue
+					}
+					selector = x.Index
+				default:
 					continue
 				}
 				nCmp++
 				has := false
-				for _, o := range (&Slicer{P: p}).Origins(bo.X) {
+				for _, o := range (&Slicer{P: p}).Origins(selector) {
 					if _, f, base, okf := fieldOf(o); okf && f == "InternalAddrType" {
 						for _, o2 := range (&Slicer{P: p, ThroughDeref: true}).Origins(base) {
 							if _, f2, _, ok2 := fieldOf(o2); ok2 && f2 == "AddrSchema" {
@@ -861,4 +993,14 @@ func (p *Program) guardFormsEq(b *ssa.BasicBlock) []string {
 		}
 	}
 	return out
+}
+
+// lookupOf: v is (the value component of) a map lookup.
+func lookupOf(v ssa.Value) *ssa.Lookup {
+	v = stripConv(v)
+	if ex, ok := v.(*ssa.Extract); ok && ex.Index == 0 {
+		v = ex.Tuple
+	}
+	lk, _ := v.(*ssa.Lookup)
+	return lk
 }
